@@ -290,3 +290,45 @@ Lemma order_example :
   /\ known_browse_expiring ex_ifs srvtgt_hist = false
   /\ known_browse_expiring ex_ifs restart_hist = false.
 Proof. repeat split; vm_compute; reflexivity. Qed.
+
+(* non-vacuity of "no ServiceResolved after ServiceRemoved without new records": full
+   announcement at +100, goodbye at +1000 (ServiceRemoved at +2000, when the goodbye records have
+   run out), full announcement again at +2500: ServiceResolved again on the same channel; then
+   stop and browse again on a new channel *)
+Definition again_hist : list iter :=
+  [ mkIter T0 [] [CBrowse n_ty 1];
+    mkIter (T0 + 100) [mkDgram 2 true w_full] [];
+    mkIter (T0 + 1000) [mkDgram 2 true w_bye] [];
+    mkIter (T0 + 2000) [] [];
+    mkIter (T0 + 2500) [mkDgram 2 true w_full] [];
+    mkIter (T0 + 3000) [] [CStop n_ty; CBrowse n_ty 2];
+    mkIter (T0 + 3500) [] [] ].
+
+Lemma again_example :
+  wf_history again_hist = true /\ safe_class ex_ifs again_hist = true /\ fresh_channels again_hist = true
+  /\ map (fun o => (existsb is_resolved_evt o, existsb is_removed_evt o)) (run_history ex_ifs again_hist)
+     = [(false, false); (true, false); (false, false); (false, true); (true, false); (false, false); (false, false)]
+  /\ chk_C05 ex_ifs again_hist (ex_wakes again_hist) (map obs_of (run_history ex_ifs again_hist)) = true
+  /\ fresh_channels ex_hist = true /\ fresh_channels brexp_hist = true /\ fresh_channels ptrlast_hist = true.
+Proof. repeat split; vm_compute; reflexivity. Qed.
+
+(* C05-stop-browse-drops-shared-records: the instance is browsed under its type (channel 1) and a
+   subtype (channel 2); stop_browse of the subtype at +1000 drops its SRV / TXT / address records;
+   channel 1 never gets a ServiceRemoved although nothing of the instance but the PTR is left *)
+Definition stopname_hist : list iter :=
+  [ mkIter T0 [] [CBrowse n_ty 1; CBrowse n_sub 2];
+    mkIter (T0 + 100) [mkDgram 2 true w_twonames_addr3] [];
+    mkIter (T0 + 1000) [] [CStop n_sub];
+    mkIter (T0 + 2000) [] [];
+    mkIter (T0 + 4000) [] [] ].
+
+Definition is_dead_no_srv (f : fail) : bool := match f with F05_dead _ _ _ _ _ false => true | _ => false end.
+
+Lemma stop_second_name_witness :
+  wf_history stopname_hist = true /\ safe_class ex_ifs stopname_hist = true /\ fresh_channels stopname_hist = true
+  /\ known_stop_second_name ex_ifs stopname_hist = true
+  /\ existsb (existsb is_removed_evt) (run_history ex_ifs stopname_hist) = false
+  /\ existsb is_dead_no_srv (viol_C05 ex_ifs stopname_hist (ex_wakes stopname_hist)
+                                      (map obs_of (run_history ex_ifs stopname_hist))) = true
+  /\ known_stop_second_name ex_ifs twonames_hist = false /\ known_stop_second_name ex_ifs again_hist = false.
+Proof. repeat split; vm_compute; reflexivity. Qed.
